@@ -524,3 +524,85 @@ def reach_wiring(vrl: int, n1: int, n2: int, a: int, b: int, c: int, chunk: int,
     post: _ != 0
     """
     return wiring_check(vrl, n1, n2, a, b, c, chunk, default_chunk)
+
+
+# ------------------------------------------------------------------------------------- DLISFile.write wiring
+import dliswriter.file.file as file_mod
+from dliswriter.file.file import DLISFile
+from dliswriter.logical_record.misc.storage_unit_label import StorageUnitLabel
+
+
+class RecDLISWriter:
+    log = []
+
+    def __init__(self, filename, visible_record_length=8192):
+        RecDLISWriter.log.append(('init', filename, visible_record_length))
+
+    def write_storage_unit_label(self, sul):
+        RecDLISWriter.log.append(('sul', sul))
+
+    def write_logical_records(self, records, output_chunk_size=None):
+        RecDLISWriter.log.append(('records', records, output_chunk_size))
+
+
+def write_wiring_check(mrl_label, mrl_ctor, own_label, in_chunk, out_chunk, frm, to, change_after):
+    """DLISFile.write: objects are checked, then the writer is created with the maximum record length *declared in the
+    label that is written*, the label is written first, and the records generated for exactly the arguments given
+    (input chunk size, data, window) are handed over with the output chunk size."""
+    if own_label:
+        df = DLISFile(storage_unit_label=StorageUnitLabel('SET', 1, mrl_label), max_record_length=mrl_ctor)
+    else:
+        df = DLISFile(max_record_length=mrl_label)
+    if change_after:
+        df.storage_unit_label.max_record_length = mrl_label - 2
+    declared = df.storage_unit_label.max_record_length
+    lf = df.add_logical_file()
+    calls = []
+    lf.check_objects = lambda: calls.append('check')
+    marker = object()
+    data = {'k': 1}
+
+    def gen(chunk_size=None, data=None, **kw):
+        calls.append(('gen', chunk_size, data, kw.get('from_idx'), kw.get('to_idx')))
+        return marker
+    df.generate_logical_records = gen
+    RecDLISWriter.log = []
+    real_w, real_t = file_mod.DLISWriter, file_mod.timeit
+    file_mod.DLISWriter = RecDLISWriter
+    file_mod.timeit = lambda f, number=1: (f(), 0.0)[1]
+    try:
+        df.write('out.dlis', input_chunk_size=in_chunk, output_chunk_size=out_chunk, data=data, from_idx=frm, to_idx=to)
+    finally:
+        file_mod.DLISWriter, file_mod.timeit = real_w, real_t
+    log = RecDLISWriter.log
+    if len(log) != 3 or log[0][0] != 'init' or log[1][0] != 'sul' or log[2][0] != 'records':
+        return 1
+    if log[0][1] != 'out.dlis' or log[0][2] != declared:
+        return 2                           # the writer's record length must be the one the label declares
+    if log[1][1] is not df.storage_unit_label:
+        return 3
+    if log[2][1] is not marker or log[2][2] != out_chunk:
+        return 4
+    if calls != ['check', ('gen', in_chunk, data, frm, to)]:
+        return 5
+    return 0
+
+
+def ob_write_wiring(mrl_label: int, mrl_ctor: int, own_label: bool, in_chunk: int, out_chunk: int, frm: int, to: int,
+                    change_after: bool) -> int:
+    """
+    pre: 22 <= mrl_label <= 16384 and mrl_label % 2 == 0 and 20 <= mrl_ctor <= 16384 and mrl_ctor % 2 == 0
+    pre: 1 <= in_chunk <= 1000 and 20 <= out_chunk <= 100000 and 0 <= frm < to <= 1000
+    post: _ == 0
+    """
+    return write_wiring_check(mrl_label, mrl_ctor, own_label, in_chunk, out_chunk, frm, to, change_after)
+
+
+def reach_write_wiring(mrl_label: int, mrl_ctor: int, own_label: bool, in_chunk: int, out_chunk: int, frm: int, to: int,
+                       change_after: bool) -> int:
+    """
+    pre: 22 <= mrl_label <= 16384 and mrl_label % 2 == 0 and 20 <= mrl_ctor <= 16384 and mrl_ctor % 2 == 0
+    pre: 1 <= in_chunk <= 1000 and 20 <= out_chunk <= 100000 and 0 <= frm < to <= 1000
+    post: _ != 0
+    """
+    return write_wiring_check(mrl_label, mrl_ctor, own_label, in_chunk, out_chunk, frm, to, change_after)
